@@ -85,6 +85,18 @@ func IllFormed(v *Vector, thorough bool, rs ...*rng.R) []Variant {
 					add("overflowing", s.Name+"=<random "+strconv.Itoa(len(tok))+"-digit number>", argvValue(replaced(v.Argv, i, tok), -1))
 				}
 			}
+			// a relative expiry that fits into an integer but not into a duration (its conversion to
+			// nanoseconds wraps around): out of range where a number is required (Redis: invalid expire time)
+			switch s.Name {
+			case "seconds":
+				for _, tok := range []string{"9223372037", "9223372036854775807", "18446744074"} {
+					add("expiry-overflows-duration", s.Name+"="+tok, argvValue(replaced(v.Argv, i, tok), -1))
+				}
+			case "milliseconds":
+				for _, tok := range []string{"9223372036855", "9223372036854775807", "18446744073710"} {
+					add("expiry-overflows-duration", s.Name+"="+tok, argvValue(replaced(v.Argv, i, tok), -1))
+				}
+			}
 			if s.Kind == KPosInt {
 				// an expiry must be positive: 0 and negative values are out of range
 				for _, tok := range []string{"0", "-1", "-9223372036854775808"} {
